@@ -256,7 +256,10 @@ class AbstractShexingStrategy(object):
     def _statements_without_shapes_to_remove(self, original_statements, shape_names_to_remove):
         new_statements = []
         for a_statement in original_statements:
-            if not a_statement.st_type in shape_names_to_remove:
+            if isinstance(a_statement, FixedPropChoiceStatement):  # A choice has several types, no single st_type
+                if not any(a_type in shape_names_to_remove for a_type in a_statement.st_types):
+                    new_statements.append(a_statement)
+            elif not a_statement.st_type in shape_names_to_remove:
                 new_statements.append(a_statement)
         return new_statements
 
